@@ -34,6 +34,10 @@ where
                 scale_factor[i] = coeff_matrix[i][j].abs();
             }
         }
+        if scale_factor[i] == 0.0 {
+            // A row of zeros cannot be scaled: the system is singular
+            return Err(SolverError::SingularMatrix);
+        }
     }
     forward_elimination(
         &mut coeff_matrix,
